@@ -281,6 +281,55 @@ def r_spans(rep, facts, rid='C14/R14'):
             bad = []
             n = [0]
 
+            def walk_value(val, pspan, where):
+                """the elements of an array and the entries of an inline table: each span inside the container's, each slice reads back as the element"""
+                val = deref(val)
+                if not (isinstance(val, tuple) and len(val) == 3 and val[0] == 'ctor'):
+                    return
+                if val[1] == V + 'Array':
+                    for i, el in enumerate(deref(deref(val[2][0])[2]['values']).items):
+                        check_inner(el, pspan, f'{where}[{i}]')
+                elif val[1] == V + 'InlineTable':
+                    for k, el in deref(deref(val[2][0])[2]['items']).pairs:
+                        kn = keyname(k)
+                        ks = span_of(p, 'toml_edit::key::Key::span', k)
+                        if ks is None or not (pspan[0] <= ks[0] <= ks[1] <= pspan[1]):
+                            bad.append(f'{where}.{kn}: the key span {ks} is not inside the inline table\'s span {pspan}')
+                        else:
+                            try:
+                                if tomllib.loads(text[ks[0]:ks[1]] + ' = 1') != {kn: 1}:
+                                    bad.append(f'{where}.{kn}: the key span {ks} covers {text[ks[0]:ks[1]]!r}')
+                            except tomllib.TOMLDecodeError:
+                                bad.append(f'{where}.{kn}: the key span {ks} covers {text[ks[0]:ks[1]]!r}, which is not a key')
+                        dv_ = deref(el)
+                        if dv_[1] == I + 'Table':          # a dotted key inside the inline table
+                            inner_t = deref(dv_[2][0])
+                            walk_value(('ctor', V + 'InlineTable', (('struct', 'x', {'items': inner_t[2]['items']}),)), pspan, f'{where}.{kn}')
+                        else:
+                            check_inner(el, pspan, f'{where}.{kn}')
+
+            def check_inner(el, pspan, where):
+                n[0] += 1
+                es = span_of(p, 'toml_edit::item::Item::span', el)
+                if es is None:
+                    dv0 = deref(el)
+                    inner0 = deref(dv0[2][0]) if dv0[1] == I + 'Value' else None
+                    if inner0 is not None and inner0[1] == V + 'InlineTable' and deref(inner0[2][0])[2].get('implicit'):
+                        walk_value(inner0, pspan, where)          # a table implied by a dotted key inside an inline table has no text of its own
+                        return
+                    bad.append(f'{where}: the element has no span')
+                    return
+                if not (pspan[0] <= es[0] <= es[1] <= pspan[1]):
+                    bad.append(f'{where}: the span {es} is outside the span {pspan} of the container')
+                try:
+                    if tomllib.loads('v = ' + text[es[0]:es[1]]) != {'v': plain(el)}:
+                        bad.append(f'{where}: the span {es} covers {text[es[0]:es[1]]!r}')
+                except tomllib.TOMLDecodeError:
+                    bad.append(f'{where}: the span {es} covers {text[es[0]:es[1]]!r}, which is not a value')
+                dv_ = deref(el)
+                if dv_[1] == I + 'Value':
+                    walk_value(deref(dv_[2][0]), es, where)
+
             def walk_table(t, parent, path):
                 for k, v in deref(t[2]['items']).pairs:
                     kn = keyname(k)
@@ -312,6 +361,7 @@ def r_spans(rep, facts, rid='C14/R14'):
                             bad.append(f'{".".join(here)}: the value span {vs} covers {text[vs[0]:vs[1]]!r}, which is not a value')
                         if parent and not (parent[0] <= vs[0] and vs[1] <= parent[1]):
                             bad.append(f'{".".join(here)}: the value span {vs} is outside its table\'s span {parent}')
+                        walk_value(deref(dv[2][0]), vs, '.'.join(here))
                     if kind == 'Table':
                         tb = deref(dv[2][0])
                         if vs and not tb[2].get('dotted') and not text[vs[0]:].startswith('['):
